@@ -179,8 +179,8 @@ Qed.
 (* the generated pieces of the loop, as the pinned code has them *)
 Lemma scan_id ps : scan_prefixes ps = ps.
 Proof. reflexivity. Qed.
-Lemma is_sensor_key_mut e : is_sensor_key e = e_mut e.
-Proof. unfold is_sensor_key, type_holds, sn_key_type, sn_key_type_eq. cbn. destruct (e_mut e); reflexivity. Qed.
+Lemma is_sensor_key_mut ps all e : is_sensor_key_gen sn_type_through_view ps all e = e_mut e.
+Proof. unfold is_sensor_key_gen, sn_type_through_view, type_holds, sn_key_type, sn_key_type_eq. cbn. destruct (e_mut e); reflexivity. Qed.
 
 (* a key of rank r is its r-th prefix followed by its shortened name *)
 Lemma first_match ps k : forall r, key_rank ps k = Some r ->
@@ -226,11 +226,11 @@ Proof.
 Qed.
 
 (* what the loop of the code leaves under name n = the scan that keeps an owner of minimal rank *)
-Lemma sensor_table_gen_r ps n : n <> "" -> forall st t acc, rtbl_get t n = acc ->
-  rtbl_get (fold_left (sensor_step ps) st t) n = fold_left (bstep ps n) st acc.
+Lemma sensor_table_gen_r ps all n : n <> "" -> forall st t acc, rtbl_get t n = acc ->
+  rtbl_get (fold_left (sensor_step ps all) st t) n = fold_left (bstep ps n) st acc.
 Proof.
   intros Hn. induction st as [|e st IH]; intros t acc H; simpl; [exact H|].
-  apply IH. unfold sensor_step, bstep, owns. rewrite is_sensor_key_mut, scan_id.
+  apply IH. unfold sensor_step, sensor_step_gen, bstep, owns. rewrite is_sensor_key_mut, scan_id.
   destruct (e_mut e); simpl; [|exact H].
   destruct (String.eqb_spec (shorten_key ps (e_key e)) "") as [E|E].
   - rewrite E. destruct (String.eqb_spec "" n) as [<-|_]; [contradiction|exact H].
@@ -304,7 +304,7 @@ Lemma sensor_most_specific ps st n : n <> "" ->
       (forall e, In e st -> owns ps n e = true -> exists r', key_rank ps (e_key e) = Some r' /\ (r <= r')%nat)
   end.
 Proof.
-  intros Hn. unfold sensor_table. rewrite (sensor_table_gen_r ps n Hn st [] None eq_refl).
+  intros Hn. unfold sensor_table. rewrite (sensor_table_gen_r ps st n Hn st [] None eq_refl).
   apply (best_inv_fold ps n Hn st [] None). simpl. intros e [].
 Qed.
 
@@ -432,10 +432,10 @@ Proof.
     + rewrite <- IH. split; [intros [H|H]; [contradiction|exact H]|auto].
 Qed.
 
-Lemma empty_name_absent ps : forall st t, rtbl_get t "" = None -> rtbl_get (fold_left (sensor_step ps) st t) "" = None.
+Lemma empty_name_absent ps all : forall st t, rtbl_get t "" = None -> rtbl_get (fold_left (sensor_step ps all) st t) "" = None.
 Proof.
-  induction st as [|e st IH]; intros t H; simpl; [exact H|]. apply IH. unfold sensor_step.
-  destruct (is_sensor_key e); [|exact H].
+  induction st as [|e st IH]; intros t H; simpl; [exact H|]. apply IH. unfold sensor_step, sensor_step_gen.
+  destruct (is_sensor_key_gen _ ps all e); [|exact H].
   destruct (String.eqb_spec (shorten_key (scan_prefixes ps) (e_key e)) "") as [E|E]; [exact H|].
   destruct (rank_in_code ps (e_key e) _); [|exact H].
   destruct (sn_replaces _ _); [|exact H]. rewrite rtbl_get_set. apply String.eqb_neq in E. rewrite E. exact H.
@@ -876,4 +876,15 @@ Example nonvacuous_flags :
   /\ upgrade_flags "l0" (mkC 3 3 [4; 12]%Z) [good; bad] = Err 1
   /\ upgrade_flags "l0" (mkC 3 3 [4; 12]%Z) [nosrc; bad] = Err 2
   /\ upgrade_flags "l0" (mkC 3 3 [4; 12]%Z) [other] = Ok (mkC 3 3 [4; 12]%Z).
+Proof. repeat split; vm_compute; reflexivity. Qed.
+
+(* F-C18x-1 (repaired): the pinned loop asked the VIEW for the type of the full key, which resolves it through the
+   prefixes once more: with an attribute cb_s_foo (immutable) the sensor s_foo was taken for immutable ("cb_" ++
+   "s_foo" exists) and dropped, and through an exclusive view no key was a sensor at all *)
+Lemma sensor_type_refuted_before_fix :
+  let ps := spec_prefixes "cb" ["s"] in
+  let st := [mkEntry "cb_s_foo" false 1; mkEntry "s_foo" true 2] in
+  spec_sensor st ps "foo" = Some "s_foo" /\ sensor_key_viewtyped ps st "foo" = None /\ sensor_key ps st "foo" = Some "s_foo"
+  /\ sensor_key_viewtyped ["cb_s_"; "cb_"; "s_"] [mkEntry "s_foo" true 2] "foo" = None
+  /\ sensor_key ["cb_s_"; "cb_"; "s_"] [mkEntry "s_foo" true 2] "foo" = Some "s_foo".
 Proof. repeat split; vm_compute; reflexivity. Qed.
